@@ -176,6 +176,7 @@ def build(world, program):
         def caller(idx, script, portal):
             for op in script:
                 kind, tag = op[0], op[1]
+                log("op", idx, kind, tag)
                 try:
                     if kind == "call_sync":
                         r = portal.call(sync_fn, tag)
@@ -294,7 +295,25 @@ def nontrivial(program, ex):
     return any(t[0] and t[2] in ("T", "Tb") for t in ex.trace)
 
 
+SUBMIT_OPS = ("call_sync", "call_fail", "call_fail_base", "call_async", "soon_block",
+              "soon_block_raise", "soon_gate", "set_gate", "start_task_ok", "start_task_fail",
+              "start_task_blocked", "stop_portal")
+
+
 def check(program, ex):
+    if ex.status == "deadlock" and "thread#1:done" in str(ex.detail):
+        # the portal's loop thread has finished; which operation is each stuck caller in?
+        stuck = []
+        for part in str(ex.detail).split(","):
+            part = part.strip()
+            if part.startswith("caller") and part.endswith(":blocked"):
+                idx = int(part[len("caller")])
+                ops = [e for e in ex.log if e[2] == "op" and e[3] == idx]
+                stuck.append(ops[-1][4] if ops else "?")
+        if stuck and all(k in SUBMIT_OPS for k in stuck):
+            return ["a call submitted to the portal while its event loop was finishing is never "
+                    f"answered: the caller thread hangs in {sorted(set(stuck))} (the callback was "
+                    f"queued on the finished, not yet closed loop) [{ex.detail}]"]
     if ex.status != "ok":
         return [f"execution status {ex.status}: {ex.detail}"]
     if ex.main_exc is not None:
